@@ -214,7 +214,13 @@ def read(text, case, d):
             other = Table(np.array([[5.0, 0.0], [0.0, 7.0]]),
                           ["earlier-o1", "earlier-o2"],
                           ["earlier-s1", "earlier-s2"])
-            with opener() as f:
+            # ... sometimes in the other compression form
+            flip = case.get("chunk", 0) % 6 == 0
+            op_ = ((lambda: open(p, "w", encoding="utf8"))
+                   if how.endswith("gz") else
+                   (lambda: gzip.open(p, "wt", encoding="utf8"))) \
+                if flip else opener
+            with op_() as f:
                 f.write(other.to_json("earlier"))
             load_table(p)
             os.remove(p)
@@ -231,7 +237,15 @@ def read(text, case, d):
     if how == "parse_chunks":
         k = case["chunk"]
         return _parse_list([text[i:i + k] for i in range(0, len(text), k)])
-    return Table.from_json(json.loads(text))
+    # the parsed document is the caller's: unchanged by the call, and good
+    # for a second one
+    doc = json.loads(text)
+    held = json.loads(text)
+    first = Table.from_json(doc)
+    if doc != held:
+        raise Violation("input-modified", "Table.from_json changed the "
+                        "document it was given")
+    return Table.from_json(doc) if case.get("chunk", 0) % 2 else first
 
 
 def _needs_escape(s):
